@@ -104,8 +104,16 @@ func c03Gen(g *Gen) {
 			tag, streams = c03Unexpected(x)
 		}
 		if r.Chance(35) {
-			// widened HTTP family: every route, authenticators installed, hostile headers
-			g.Case(x.wideLine())
+			// widened HTTP family: every route, authenticators installed, hostile headers;
+			// genuine-but-foreign tokens; clock histories of the proof gate
+			switch k := r.Intn(10); {
+			case k < 2:
+				g.Case(x.wideSticky()...)
+			case k < 4:
+				g.Case(x.wideProofHistory()...)
+			default:
+				g.Case(x.wideLine())
+			}
 			continue
 		}
 		mut := "-"
@@ -360,4 +368,102 @@ func (x *c02G) wideLine() string {
 		line += " " + body
 	}
 	return line
+}
+
+func c03Hdrs(kv ...string) string {
+	var p []string
+	for i := 0; i+1 < len(kv); i += 2 {
+		p = append(p, c02Hex(kv[i])+"="+c02Hex(kv[i+1]))
+	}
+	if len(p) == 0 {
+		return "-"
+	}
+	return strings.Join(p, ",")
+}
+
+// credHeaders: the header(s) with which the configuration admits the caller, as script text.
+func c03CredHeaders(cfg string) []string {
+	switch cfg {
+	case "xfcc", "xfccv":
+		return []string{"X-Forwarded-Client-Cert", `Hash=abc;Subject="CN=alice"`}
+	case "bearer", "chain":
+		return []string{"Authorization", "Bearer tok1"}
+	case "proof":
+		return []string{"Authorization", "Bearer tok1", "VGI-Proxy-Proof", "@PROOF"}
+	}
+	return nil
+}
+
+var c03U3Body = "S a:int64:0,b:int64:0,c:int64:0 B 1 0,3,1 " + c02MetaStr([][2]string{{"vgi_rpc.method", "u3"}, {"vgi_rpc.request_version", "1"}})
+
+// wideSticky: an authenticated request carrying a GENUINE sticky-session token that is not (or no
+// longer) this worker's / this caller's to use, or a genuine-but-foreign continuation token.
+func (x *c02G) wideSticky() []string {
+	r := x.g.Rng
+	cfg := Pick(r, []string{"plain", "xfcc", "xfccv", "bearer", "proof", "chain"})
+	kind := Pick(r, []string{"own", "foreign", "foreign", "other", "expired", "closed"})
+	h := append([]string{"Content-Type", c03Arrow}, c03CredHeaders(cfg)...)
+	h = append(h, "VGI-Session", "@STICKY:"+kind)
+	if r.Chance(40) {
+		h = append(h, "VGI-Session-Accept", Pick(r, []string{"true", "TRUE", "false"}))
+	}
+	route := r.Intn(6)
+	verb, target, body := "POST", "/u3", c03U3Body
+	switch route {
+	case 1:
+		target = "/p3/init"
+		body = "S a:int64:0,b:int64:0,c:int64:0 B 1 0,2,99 " + c02MetaStr([][2]string{{"vgi_rpc.method", "p3"}, {"vgi_rpc.request_version", "1"}})
+	case 2:
+		src := Pick(r, []string{"own", "sibling"})
+		target = "/x3/exchange"
+		body = "S v:int64:0 B 1 5 " + c02Hex("vgi_rpc.stream_state#b64") + "=" + c02Hex("@WINIT:"+src+":x3")
+	case 3:
+		verb, target, body = "DELETE", "/__session__", ""
+	case 4:
+		target = "/ss"
+		body = "S a:int64:0 B 1 0 " + c02MetaStr([][2]string{{"vgi_rpc.method", "ss"}, {"vgi_rpc.request_version", "1"}})
+	case 5:
+		target = "/__upload_url__/init"
+		body = "S count:int64:0 B 1 1 " + c02MetaStr([][2]string{{"vgi_rpc.method", "__upload_url__"}, {"vgi_rpc.request_version", "1"}})
+	}
+	line := fmt.Sprintf("hx %s %s x%s %s - sticky-%s body", cfg, verb, hex.EncodeToString([]byte(target)), c03Hdrs(h...), kind)
+	if body != "" {
+		line += " " + body
+	}
+	if r.Chance(30) {
+		// also a continuation with a token minted by the sibling worker, without any sticky header
+		cont := fmt.Sprintf("hx %s POST x%s %s - foreign-continuation body S v:int64:0 B 1 5 %s=%s", cfg,
+			hex.EncodeToString([]byte("/x3/exchange")), c03Hdrs(append([]string{"Content-Type", c03Arrow}, c03CredHeaders(cfg)...)...),
+			c02Hex("vgi_rpc.stream_state#b64"), c02Hex("@WINIT:sibling:x3"))
+		return []string{line, cont}
+	}
+	return []string{line}
+}
+
+// wideProofHistory: a fresh proof-gated server, then a sequence of requests whose proofs are valid
+// for the clock at which they are sent, separated by idle gaps around the replay cache's TTL
+// (2*skew+1 = 601 s) and by backwards clock steps; replays and garbage in between.
+func (x *c02G) wideProofHistory() []string {
+	r := x.g.Rng
+	lines := []string{"fresh proof"}
+	n := r.Range(2, 6)
+	for i := 0; i < n; i++ {
+		if i > 0 {
+			lines = append(lines, fmt.Sprintf("clock %d", Pick(r, []int{0, 1, 300, 600, 601, 601, 602, 602, 3000, 100000, -100, -700})))
+		}
+		proof := Pick(r, []string{"@PROOF", "@PROOF", "@PROOF", "@PROOF", "@PROOFREPLAY", "v1.k1.2000000000.n.AAAA"})
+		target := Pick(r, []string{"/u3", "/u3", "/p3/init", "/__upload_url__/init", "/health"})
+		verb := "POST"
+		body := c03U3Body
+		if target == "/health" {
+			verb, body = "GET", ""
+		}
+		line := fmt.Sprintf("hx proof %s x%s %s - proof-history body", verb, hex.EncodeToString([]byte(target)),
+			c03Hdrs("Content-Type", c03Arrow, "Authorization", "Bearer tok1", "VGI-Proxy-Proof", proof))
+		if body != "" {
+			line += " " + body
+		}
+		lines = append(lines, line)
+	}
+	return lines
 }
